@@ -47,7 +47,7 @@ BIG = {
 for _p, (_q, _kw) in BIG.items():
     _n = _p.lower()
     CONFIGS[(_p, "quick")] = CONFIGS[(_p, "quick")] + [big("big-%s-40" % _n, _q, 10, 40, 48, 40, **_kw), big("big-%s-300" % _n, _q, 100, 300, 12, 30, **_kw)]
-    CONFIGS[(_p, "thorough")] = CONFIGS[(_p, "thorough")] + [big("big-%s-60" % _n, _q, 10, 60, 400, 60, **_kw), big("big-%s-400" % _n, _q, 100, 400, 48, 40, **_kw)]
+    CONFIGS[(_p, "thorough")] = CONFIGS[(_p, "thorough")] + [big("big-%s-60" % _n, _q, 10, 60, 400, 60, **_kw), big("big-%s-300t" % _n, _q, 100, 300, 48, 40, **_kw)]
 
 LEMMAS = ("Lem_Nav", "Lem_Orders", "Lem_Walk")
 
